@@ -179,6 +179,53 @@ pub static EXTRA_SUSPEND: std::sync::atomic::AtomicUsize = std::sync::atomic::At
 /// what every "tg…" function answers from `cacheable()` right now (each shard is a single-threaded process)
 pub static TOGGLE_CACHEABLE: std::sync::atomic::AtomicBool = std::sync::atomic::AtomicBool::new(true);
 
+/// Zero-sized user functions: they log through a process-wide sink (set by the fixture that registers them) because they have no fields.
+pub static ZST_SINK: Mutex<Option<(Arc<Log>, Arc<FaultPlan>)>> = Mutex::new(None);
+
+fn zst_call(name: &'static str, param: Value) -> FunctionResult {
+    let sink = ZST_SINK.lock().unwrap().clone();
+    let Some((log, plan)) = sink else { return Ok(Value::Vec(vec![Value::String(name.to_string()), param])) };
+    let eval = CURRENT_EVAL.with(|c| c.get());
+    let mut s = log.state.lock().unwrap();
+    let per_eval = s.counts.entry(eval).or_default().entry(bucket(name, &param)).or_default();
+    let j = match per_eval.iter_mut().find(|(n, a, _)| *n == name && same(a, &param)) {
+        Some(c) => {
+            c.2 += 1;
+            c.2 - 1
+        }
+        None => {
+            per_eval.push((name, param.clone(), 1));
+            0
+        }
+    };
+    let outcome = outcome_of(Kind::Tag, name, &param, plan.fails(name, &param, j), j);
+    s.entries.push(Entry { eval, func: name, arg: param.clone(), outcome: outcome.clone() });
+    outcome.map_err(|m| anyhow::anyhow!(m))
+}
+
+pub struct ZstA;
+pub struct ZstB;
+
+#[async_trait]
+impl UserFunction for ZstA {
+    async fn call(&self, param: Value) -> FunctionResult {
+        zst_call("zsta", param)
+    }
+    fn name(&self) -> &'static str {
+        "zsta"
+    }
+}
+
+#[async_trait]
+impl UserFunction for ZstB {
+    async fn call(&self, param: Value) -> FunctionResult {
+        zst_call("zstb", param)
+    }
+    fn name(&self) -> &'static str {
+        "zstb"
+    }
+}
+
 /// A function that does NOT override `cacheable()`: the trait's default (cacheable) applies.
 pub struct DefaultCacheable(pub TFn);
 
